@@ -127,11 +127,15 @@ func TestRegressC16(t *testing.T) {
 
 // F9 (C18).
 func TestRegressC18(t *testing.T) {
-	rec := evid.New("TestRegressC18", "C18", "saved populations of the fixed C18 defects (one unusable selector; pods of a deleted setting)")
+	rec := evid.New("TestRegressC18", "C18", "saved populations of the fixed C18 defects (one unusable selector; pods of a deleted setting; a failing list of the settings while a new setting arrives)")
 	for name, k := range map[string]c18Case{
 		"F9-bad-selector-no-nodes":         {Settings: []c18Setting{{NS: "ns1", Name: "set-a", Selector: "zone=a", Ref: "foo"}, {NS: "ns1", Name: "set-b", Selector: "bad", Ref: "foo"}}, Order: []int{0, 1}, ListRev: make([]bool, 4)},
 		"F19-setting-deleted-pods-keep-it": {Settings: []c18Setting{{NS: "ns1", Name: "set-a", Selector: "zone=a", Ref: "foo", Res: "requests"}, {NS: "ns1", Name: "set-b", Selector: "zone=b", Ref: "foo", Res: "limits"}}, Nodes: []map[string]string{{"zone": "a"}, {"zone": "b"}}, Order: []int{0, 1}, ListRev: make([]bool, 4), Remove: []int{0}},
-		"F9-bad-selector-poisons":          {Settings: []c18Setting{{NS: "ns1", Name: "set-a", Selector: "zone=a", Ref: "foo"}, {NS: "ns1", Name: "set-b", Selector: "bad", Ref: "foo", CreatedAt: 1}}, Nodes: []map[string]string{{"zone": "a"}}, Order: []int{1, 0}, ListRev: make([]bool, 4)},
+		"F22-settings-list-fails-for-a-new-setting": {Settings: []c18Setting{{NS: "ns1", Name: "set-a", Selector: "zone=a", Ref: "foo"}}, Order: []int{0}, ListRev: make([]bool, 2),
+			Late: &c18Setting{NS: "ns1", Name: "set-late", Selector: "zone=a", Ref: "foo", Res: "requests"}, FaultRead: 2, FaultKind: sim.FaultReject},
+		"F22-settings-list-fails-for-the-older-competitor": {Settings: []c18Setting{{NS: "ns1", Name: "set-a", Selector: "zone=a", Ref: "foo"}}, Nodes: []map[string]string{{"zone": "a"}}, Order: []int{0}, ListRev: make([]bool, 2),
+			Late: &c18Setting{NS: "ns1", Name: "set-late", Selector: "zone=a", Ref: "foo", Res: "requests"}, FaultRead: 5, FaultKind: sim.FaultRejectTyped},
+		"F9-bad-selector-poisons": {Settings: []c18Setting{{NS: "ns1", Name: "set-a", Selector: "zone=a", Ref: "foo"}, {NS: "ns1", Name: "set-b", Selector: "bad", Ref: "foo", CreatedAt: 1}}, Nodes: []map[string]string{{"zone": "a"}}, Order: []int{1, 0}, ListRev: make([]bool, 4)},
 	} {
 		vs, err := runC18(k)
 		regress(t, rec, name, vs, err, k.String())
